@@ -36,8 +36,10 @@ def rand_noise(r, next_id):
             ops.append(('cache', r.choice(['on', 'off', 'clear'])))
         elif k == 2:
             ops.append(('warm', r.choice(TRS_STRS[:9] + ['154n97w14', '2n3w05'])))
-        elif k in (3, 4):
+        elif k == 3:
             ops.append(('todict', r.choice(TRS_STRS)))
+        elif k == 4:
+            ops.append(('todict_obj', r.choice(TRS_STRS[:4] + ['154n97w14', '2n3w05', '154n97w15'])))
         elif k in (5, 6, 7):
             i = next_id[0]
             next_id[0] += 1
